@@ -33,37 +33,78 @@ def groups (ss : List Stmt) : List (List String × Stmt) × List String := group
 
 def pragmaStmts (ts : List String) : List Stmt := ts.map fun t => .nop kPragma t
 
+/-! ### loop nests -/
+
+structure Spec where
+  v : String
+  lo : Ex
+  hi : Ex
+  step : Option Ex
+
+/-- a *perfect* nest of the given depth (what `get_nested_loops` + `bodies[-1]` of `do_loop_fusion` keep): the (variable, range)
+of every level and the innermost body; `none` if a level above the innermost contains anything but one loop -/
+def nestSpecs : Nat → Stmt → Option (List Spec × List Stmt)
+  | 0, _ => none
+  | 1, .doLoop v lo hi st body => some ([⟨v, lo, hi, st⟩], body)
+  | d + 2, .doLoop v lo hi st [inner] => (nestSpecs (d + 1) inner).map fun r => (⟨v, lo, hi, st⟩ :: r.1, r.2)
+  | _, _ => none
+
+def mkNest : List Spec → List Stmt → List Stmt
+  | [], body => body
+  | sp :: rest, body => [.doLoop sp.v sp.lo sp.hi sp.step (mkNest rest body)]
+
+/-- value of the parameter `key(value)` among the blank-separated words of a pragma text -/
+def pragmaParam (key : String) (t : String) : Option String :=
+  (t.splitOn " ").findSome? fun tok =>
+    if tok.startsWith (key ++ "(") ∧ tok.endsWith ")" then some ((tok.drop (key.length + 1)).dropEnd 1).toString else none
+
 /-! ### fusion -/
 
 def isFusionPragma (t : String) : Bool := t.startsWith "loki loop-fusion"
 
 /-- `group(g)` parameter, default `default` -/
-def fusionGroup (t : String) : String :=
-  let rest := (t.drop "loki loop-fusion".length).trimAscii.toString
-  if rest.startsWith "group(" ∧ rest.endsWith ")" then ((rest.drop 6).dropEnd 1).toString else "default"
+def fusionGroup (t : String) : String := (pragmaParam "group" t).getD "default"
+
+/-- `collapse(n)` parameter, default 1 -/
+def fusionCollapse (t : String) : Nat := ((pragmaParam "collapse" t).bind String.toNat?).getD 1
 
 structure FLoop where
   group : String
-  v : String
-  lo : Ex
-  hi : Ex
-  step : Option Ex
+  collapse : Nat
+  specs : List Spec          -- [] when the loop is not a perfect nest of depth `collapse`
   body : List Stmt
 
 def fusionLoopOf (g : List String × Stmt) : Option FLoop :=
   match g.2, g.1.find? isFusionPragma with
-  | .doLoop v lo hi st body, some t => some ⟨fusionGroup t, v, lo, hi, st, body⟩
+  | .doLoop v lo hi st body, some t =>
+      match nestSpecs (fusionCollapse t) (.doLoop v lo hi st body) with
+      | some r => some ⟨fusionGroup t, fusionCollapse t, r.1, r.2⟩
+      | none => some ⟨fusionGroup t, fusionCollapse t, [], []⟩
   | _, _ => none
 
 def exKey (e : Ex) : String := toString (encEx e)
 
-/-- the class the model covers: every fusion loop has no step, all loops of a group have the same bounds (as syntax trees) -/
+def sameRanges : List Spec → List Spec → Bool
+  | [], [] => true
+  | a :: as, b :: bs => exKey a.lo == exKey b.lo && exKey a.hi == exKey b.hi && sameRanges as bs
+  | _, _ => false
+
+/-- the class the model covers: every fusion loop is a perfect nest of its collapse depth without steps, all loops of a group
+have the same collapse depth and the same bounds (as syntax trees) level by level -/
 def fusionSimple (ss : List Stmt) : Bool :=
   let fl := (groups ss).1.filterMap fusionLoopOf
-  fl.all fun a => a.step.isNone && fl.all fun b => a.group != b.group || (exKey a.lo == exKey b.lo && exKey a.hi == exKey b.hi)
+  fl.all fun a => decide (0 < a.collapse) && a.specs.length == a.collapse && a.specs.all (fun sp => sp.step.isNone) &&
+    fl.all fun b => a.group != b.group || (a.collapse == b.collapse && sameRanges a.specs b.specs)
 
-def fusedBody (v : String) (fl : List FLoop) : List Stmt :=
-  fl.flatMap fun a => if a.v == v then a.body else substStmts a.v (.var v) a.body
+/-- `SubstituteExpressions(var_map)` with all levels renamed at once (done through fresh intermediate names, so that exchanged
+names — `do jl; do jk` fused into `do jk; do jl` — are handled like the simultaneous substitution of the real code) -/
+def renameLevels (from_ to : List String) (body : List Stmt) : List Stmt :=
+  let idx := List.range from_.length
+  let b1 := (from_.zip idx).foldl (fun b p => substStmts p.1 (.var ("#" ++ toString p.2)) b) body
+  (to.zip idx).foldl (fun b p => substStmts ("#" ++ toString p.2) (.var p.1) b) b1
+
+def fusedBody (fvs : List String) (fl : List FLoop) : List Stmt :=
+  fl.flatMap fun a => renameLevels (a.specs.map (·.v)) fvs a.body
 
 def fusionGo (fl : List FLoop) : List String → List (List String × Stmt) → List Stmt
   | _, [] => []
@@ -73,7 +114,8 @@ def fusionGo (fl : List FLoop) : List String → List (List String × Stmt) → 
           if seen.contains a.group then fusionGo fl seen rest
           else
             let members := fl.filter fun b => b.group == a.group
-            [.nop kPragma ("loki fused-loop group(" ++ a.group ++ ")"), .doLoop a.v a.lo a.hi none (fusedBody a.v members)]
+            [.nop kPragma ("loki fused-loop group(" ++ a.group ++ ")")] ++
+              mkNest (a.specs.map fun sp => { sp with step := none }) (fusedBody (a.specs.map (·.v)) members)
               ++ fusionGo fl (a.group :: seen) rest
       | none => pragmaStmts g.1 ++ [g.2] ++ fusionGo fl seen rest
 
@@ -138,27 +180,52 @@ def KnownBlockZeroTrip (lo hi s : Int) : Bool :=
 
 def isInterchangePragma (t : String) : Bool := t.startsWith "loki loop-interchange"
 
-def swapInner (v : String) (lo hi : Ex) (st : Option Ex) : List Stmt → List Stmt
-  | [] => []
-  | .doLoop _ _ _ _ body :: rest => .doLoop v lo hi st body :: rest
-  | s :: rest => s :: swapInner v lo hi st rest
+/-- the variable order `(a, b, c)` of `loki loop-interchange (a, b, c)`, if given -/
+def interchangeOrder (t : String) : Option (List String) :=
+  let rest := (t.drop "loki loop-interchange".length).trimAscii.toString
+  if rest.startsWith "(" ∧ rest.endsWith ")" then
+    some ((((rest.drop 1).dropEnd 1).toString.splitOn ",").map fun w => w.trimAscii.toString)
+  else none
 
-def innerLoop : List Stmt → Option (String × Ex × Ex × Option Ex)
+def firstLoop : List Stmt → Option (Spec × List Stmt)
   | [] => none
-  | .doLoop v lo hi st _ :: _ => some (v, lo, hi, st)
-  | _ :: rest => innerLoop rest
+  | .doLoop v lo hi st body :: _ => some (⟨v, lo, hi, st⟩, body)
+  | _ :: rest => firstLoop rest
+
+/-- `get_nested_loops`: the (variable, range) pairs of the chain of `depth` loops (each level: the loop among the statements) -/
+def chainSpecs : Nat → List Stmt → List Spec
+  | 0, _ => []
+  | d + 1, ss =>
+      match firstLoop ss with
+      | some (sp, body) => sp :: chainSpecs d body
+      | none => []
+
+def replaceFirstLoop (f : List Stmt → Stmt) : List Stmt → List Stmt
+  | [] => []
+  | .doLoop _ _ _ _ body :: rest => f body :: rest
+  | s :: rest => s :: replaceFirstLoop f rest
+
+/-- give the loops of the chain new (variable, range) pairs, outermost first; bodies stay where they are -/
+def renest : List Spec → List Stmt → List Stmt
+  | [], ss => ss
+  | sp :: rest, ss => replaceFirstLoop (fun body => .doLoop sp.v sp.lo sp.hi sp.step (renest rest body)) ss
+
+/-- the (variable, range) pairs in the requested order: position p of the new nest gets the pair of the loop named `order[p]` -/
+def permuteSpecs (order : List String) (specs : List Spec) : List Spec :=
+  order.filterMap fun nm => specs.find? fun sp => sp.v == nm
 
 def interchangeBody (ss : List Stmt) : List Stmt :=
   let gs := groups ss
   (gs.1.flatMap fun g =>
     match g.2 with
-    | .doLoop v lo hi st body =>
-        if g.1.any isInterchangePragma then
-          match innerLoop body with
-          | some (v2, lo2, hi2, st2) =>
-              pragmaStmts (g.1.filter fun t => !isInterchangePragma t) ++ [.doLoop v2 lo2 hi2 st2 (swapInner v lo hi st body)]
-          | none => pragmaStmts g.1 ++ [g.2]
-        else pragmaStmts g.1 ++ [g.2]
+    | .doLoop .. =>
+        match g.1.find? isInterchangePragma with
+        | some t =>
+            let depth := match interchangeOrder t with | some o => o.length | none => 2
+            let specs := chainSpecs depth [g.2]
+            let order := match interchangeOrder t with | some o => o | none => (specs.map (·.v)).reverse
+            pragmaStmts (g.1.filter fun t => !isInterchangePragma t) ++ renest (permuteSpecs order specs) [g.2]
+        | none => pragmaStmts g.1 ++ [g.2]
     | s => pragmaStmts g.1 ++ [s]) ++ pragmaStmts gs.2
 
 end LokiModel.C31
